@@ -251,7 +251,24 @@ Fixpoint judge_stream (one : utree -> sexp -> verdict) (i : nat) (t2s : list utr
     end
   end.
 
-Definition judge_many (weighted tips ident : bool) (t1 : utree) (t2s : list utree) (o : sexp) : verdict :=
+(** structural equality of s-expressions *)
+Fixpoint sexp_eqb (a b : sexp) : bool :=
+  match a, b with
+  | Atom x, Atom y => String.eqb x y
+  | SList l1, SList l2 =>
+    (fix go (l1 l2 : list sexp) : bool :=
+       match l1, l2 with
+       | [], [] => true
+       | x :: r1, y :: r2 => sexp_eqb x y && go r1 r2
+       | _, _ => false
+       end) l1 l2
+  | _, _ => false
+  end.
+
+(** a record without its id (the worker writes the id first) *)
+Definition rec_body (r : sexp) : sexp := match r with SList (_ :: b) => SList b | _ => r end.
+
+Definition judge_many (rep_c : sexp) (weighted tips ident : bool) (t1 : utree) (t2s : list utree) (o : sexp) : verdict :=
   let key := if weighted then "wstats" else "stats" in
   match get_string "err" o with
   | None => match get_string "panic" o with
@@ -271,6 +288,28 @@ Definition judge_many (weighted tips ident : bool) (t1 : utree) (t2s : list utre
     else match x <- get key o ;; list_of x with
          | None => VBad "no records in observation"
          | Some recs =>
+           match get_nat "rep" rep_c, t2s with
+           | Some k, [t2] =>
+             (* (rep k): the same compared tree sent k times: the record of copy 0 is judged, every other record
+                must be that record *)
+             if negb (Nat.eqb (length recs) k)
+             then VOracle (string_of_nat (length recs) ++ " records for " ++ string_of_nat k ++ " copies of the compared tree")
+             else match record_with_id 0 recs with
+                  | None => VCorr "no record for copy 0"
+                  | Some r0 =>
+                    let v0 := if weighted then judge_weighted tips ident t1 t2 (one_obs key r0)
+                              else judge_compare tips ident t1 t2 (one_obs key r0) in
+                    match v0 with
+                    | VOk nt tg =>
+                      match find (fun r => negb (sexp_eqb (rec_body r) (rec_body r0))) recs with
+                      | Some r => VOracle ("the copies of one compared tree get different records: copy 0 " ++ show_sexp (rec_body r0)
+                                           ++ ", another copy " ++ show_sexp r)
+                      | None => VOk nt (tg ++ ":repeat")
+                      end
+                    | v => v
+                    end
+                  end
+           | _, _ =>
            if negb (Nat.eqb (length recs) (length t2s))
            then VCorr (string_of_nat (length recs) ++ " records for " ++ string_of_nat (length t2s) ++ " compared trees")
            else
@@ -280,6 +319,7 @@ Definition judge_many (weighted tips ident : bool) (t1 : utree) (t2s : list utre
              | VOk nt tg => VOk nt (if Nat.ltb 1 (length t2s) then tg ++ ":stream" else tg)
              | v => v
              end
+           end
          end
   end.
 
@@ -326,8 +366,8 @@ Definition judge (c o : sexp) : verdict :=
       else match trees_after "t2s" c o with
            | None => VBad "undecodable case"
            | Some t2s =>
-             if String.eqb op "compare" then judge_many false tips ident t1 t2s o
-             else if String.eqb op "weighted" then judge_many true tips ident t1 t2s o
+             if String.eqb op "compare" then judge_many c false tips ident t1 t2s o
+             else if String.eqb op "weighted" then judge_many c true tips ident t1 t2s o
              else VBad "unknown op"
            end)
     | _, _, _, _ => (match get_string "panic" o with
